@@ -20,18 +20,23 @@ def run_impl(cases):
     return mc.run_impl(cases, PROP)
 
 
+def non_node_arg(op):
+    """C18 speaks of calls with tree-node arguments (the two mixins refuse non-nodes with different exceptions)"""
+    return (op[0] == "set_parent" and op[2] in ("other", "other0", "otherp")) or mc.uses_non_node(op)
+
+
 def gen_and_run(tier, seed):
     rng = gen.rng_for(seed, PROP)
     base = []
     for kk in range(1, 4):
         for c in mc.exhaustive(kk, ["mixin"], False, rng, asrt_every=4, log=True):
-            if mc.uses_non_node(c["op"]) or c["op"] == ["set_children", c["op"][1], "notiterable"]:
+            if non_node_arg(c["op"]) or c["op"] == ["set_children", c["op"][1], "notiterable"]:
                 continue
             c["cls2"] = "light"
             base.append(c)
     if tier == "thorough":
         b4 = [c for c in mc.exhaustive(4, ["mixin"], False, rng, asrt_every=4, log=True, rich=False)
-              if not mc.uses_non_node(c["op"])]
+              if not non_node_arg(c["op"])]
         rng.shuffle(b4)
         for c in b4[:40000]:
             c["cls2"] = "light"
